@@ -3,7 +3,8 @@ import ast
 
 from vlib import core, regexlang
 from props._common import pyvc_units, source_tree, bounded_unit
-from contracts import lexer
+from contracts import lexer, core_glue
+from vlib.pyvc.unit import contract_unit
 
 LEVEL = 'proof'
 TECHNIQUE = ('regular-language lemmas decided by z3 on translations of the '
@@ -167,6 +168,11 @@ def units(ctx):
     us = [core.Unit('regex:lemmas', lemmas_unit, 'z3-regex'),
           core.Unit('probe:verbatim', verbatim_probe, 'cpython')]
     us += pyvc_units(lexer.contracts(), 'C16', lexer.setup)
+    # the lexer sees EXACTLY the text the host passed (no normalisation of
+    # line ends, case or spacing between the API and the token rules)
+    us += [contract_unit(c, world_setup=core_glue.setup)
+           for c in core_glue.contracts()
+           if c.short == 'factory.YaqlEngine.__call__']
     us.append(bounded_unit(
         'bounded:c16-literals', 'c16_literals.py',
         'BOUNDED: quoted/verbatim round trip for all strings of length <= 3 '
